@@ -122,7 +122,7 @@ Qed.
 
 Lemma J_charge t u uuid blen : J t (tr_charge t u uuid blen) (gk_add_update_appointment t u uuid blen).
 Proof.
-  unfold gk_add_update_appointment, tr_charge. destruct (gk_get t u) as [ui|]; [|exact I].
+  unfold gk_add_update_appointment, tr_charge. destruct (gk_get t u) as [ui|]; [|apply J_nil].
   match goal with |- context [if ?c then _ else _] => destruct c end; [|apply J_nil].
   split; reflexivity.
 Qed.
@@ -295,15 +295,22 @@ Proof.
   unfold w_store_appointment, tr_store_appointment.
   destruct (find_app (db_apps t) (app_uuid a)) eqn:Ef.
   - split; reflexivity.
-  - destruct (amem (db_users t) (a_user a)) eqn:Em; [|exact I].
-    split; [|reflexivity]. cbn [stmts_of flat_map List.app execs fold_left].
-    apply prim_insert_app_is_stmt; assumption.
+  - destruct (amem (db_users t) (a_user a)) eqn:Em.
+    + split; [|reflexivity]. cbn [stmts_of flat_map List.app execs fold_left].
+      apply prim_insert_app_is_stmt; assumption.
+    + (* the INSERT fails on the foreign key: nothing changes *)
+      split; [|reflexivity]. cbn [stmts_of flat_map List.app execs fold_left].
+      unfold exec. cbn [exec_fuel db_of d_apps d_users]. rewrite Ef, Em. reflexivity.
 Qed.
 
 Lemma J_store_triggered sc t a d : J t (tr_store_triggered sc t a d) (w_store_triggered sc t a d).
 Proof.
   unfold w_store_triggered, tr_store_triggered. destruct (decrypt (a_blob a) d) as [p|].
-  - apply (J_bind t _ (w_store_appointment t a) _ (fun _ t1 =>
+  - destruct (w_store_ok t a) eqn:Eok; cbn [negb].
+    2:{ rewrite app_nil_r. pose proof (J_store_appointment t a) as H.
+        unfold w_store_appointment in H. unfold w_store_ok in Eok.
+        destruct (find_app (db_apps t) (app_uuid a)); [discriminate|]. rewrite Eok in H. exact H. }
+    apply (J_bind t _ (w_store_appointment t a) _ (fun _ t1 =>
              tr_handle_breach sc t1 (app_uuid a) d p ++
              match r_handle_breach sc t1 (app_uuid a) d p with
              | Ok s t2 => if status_rejected s then tr_delete t2 [app_uuid a] false else []
@@ -321,10 +328,10 @@ Lemma J_add_appointment sc t signer loc b delay sig :
 Proof.
   unfold w_add_appointment, tr_add_appointment.
   destruct (authenticate t signer) as [u|]; [|split; reflexivity].
-  destruct (gk_get t u) as [ui|]; [|exact I].
+  destruct (gk_get t u) as [ui|]; [|split; reflexivity].
   destruct (N.leb (u_expiry ui) (gk_height t)); [split; reflexivity|].
   destruct (find_trk (db_trks t) (loc, u)); [split; reflexivity|].
-  set (a := mk_app loc u b delay sig (w_height t)).
+  set (a := mk_app loc u b delay sig (w_height t)). cbv zeta.
   apply (J_bind t _ (gk_add_update_appointment t u (loc, u) (b_len b)) _ (fun charged t1 =>
            match charged with
            | None => [MAck]
@@ -337,9 +344,11 @@ Proof.
   intros charged t1 _. destruct charged as [av|]; [|split; reflexivity].
   destruct (ti_get (w_cache t1) loc) as [dispute|].
   - pose proof (J_ack t1 _ _ (J_store_triggered sc t1 a dispute)) as H.
-    destruct (w_store_triggered sc t1 a dispute) as [[] t2|s t2]; cbn [bind]; [exact H|exact I].
+    destruct (w_store_triggered sc t1 a dispute) as [[] t2|s t2]; cbn [bind]; [|exact I].
+    match goal with |- context [if ?c then _ else _] => destruct c end; exact H.
   - pose proof (J_ack t1 _ _ (J_store_appointment t1 a)) as H.
-    destruct (w_store_appointment t1 a) as [[] t2|s t2]; cbn [bind]; [exact H|exact I].
+    destruct (w_store_appointment t1 a) as [[] t2|s t2]; cbn [bind]; [|exact I].
+    match goal with |- context [if ?c then _ else _] => destruct c end; exact H.
 Qed.
 
 (* ------------------------------------------------------------------------------------------ *)
@@ -349,7 +358,7 @@ Lemma J_breach_uuid_loop sc d : forall us t inv,
   J t (tr_breach_uuid_loop sc d us t inv) (breach_uuid_loop sc d us t inv).
 Proof.
   induction us as [|uuid us IH]; intros t inv; cbn [breach_uuid_loop tr_breach_uuid_loop]; [apply J_nil|].
-  destruct (find_app (db_apps t) uuid) as [a|]; [|exact I].
+  destruct (find_app (db_apps t) uuid) as [a|]; [|apply IH].
   destruct (decrypt (a_blob a) d) as [p|]; [|apply IH].
   pose proof (J_handle_breach sc t uuid d p) as H1.
   destruct (r_handle_breach sc t uuid d p) as [s t1|s t1]; cbn [bind]; [|exact I].
@@ -534,14 +543,14 @@ Proof.
   - intros Hn. cbn [flat_segs flat_map flat_seg]. rewrite app_nil_r.
     assert (HJ : J (set_rpc_log t []) [] (w_get_appointment (set_rpc_log t []) signer loc)).
     { unfold w_get_appointment. destruct (authenticate _ signer) as [u|]; [|apply J_nil].
-      destruct (gk_get _ u) as [ui|]; [|exact I]. destruct (N.leb _ _); [apply J_nil|].
+      destruct (gk_get _ u) as [ui|]; [|apply J_nil]. destruct (N.leb _ _); [apply J_nil|].
       destruct (find_trk _ _), (find_app _ _); apply J_nil. }
     pose proof (J_wrap OGetRes (set_rpc_log t []) _ _ (J_ack _ _ _ HJ) Hn) as [D R].
     split; [exact D|]. rewrite R. apply app_nil_r.
   - intros Hn. cbn [flat_segs flat_map flat_seg]. rewrite app_nil_r.
     assert (HJ : J (set_rpc_log t []) [] (w_get_subscription_info (set_rpc_log t []) signer)).
     { unfold w_get_subscription_info. destruct (authenticate _ signer) as [u|]; [|apply J_nil].
-      destruct (gk_get _ u) as [ui|]; [|exact I]. destruct (N.leb _ _); apply J_nil. }
+      destruct (gk_get _ u) as [ui|]; [|apply J_nil]. destruct (N.leb _ _); apply J_nil. }
     pose proof (J_wrap OSubRes (set_rpc_log t []) _ _ (J_ack _ _ _ HJ) Hn) as [D R].
     split; [exact D|]. rewrite R. apply app_nil_r.
   - intros Hn.
@@ -768,7 +777,8 @@ Proof. unfold tr_store_appointment. destruct (find_app _ _); apply noack_stmt. Q
 Lemma noack_store_triggered sc t a d : noack (tr_store_triggered sc t a d).
 Proof.
   unfold tr_store_triggered. destruct (decrypt (a_blob a) d) as [p|].
-  - apply noack_app; [apply noack_store_appointment|]. destruct (w_store_appointment t a) as [[] t1|]; [|apply noack_nil].
+  - apply noack_app; [apply noack_store_appointment|]. destruct (negb (w_store_ok t a)); [apply noack_nil|].
+    destruct (w_store_appointment t a) as [[] t1|]; [|apply noack_nil].
     apply noack_app; [apply noack_handle_breach|]. destruct (r_handle_breach sc t1 (app_uuid a) d p) as [s t2|]; [|apply noack_nil].
     destruct (status_rejected s); [apply noack_delete|apply noack_nil].
   - destruct (find_app _ _); [apply noack_delete|apply noack_nil].
@@ -780,7 +790,7 @@ Lemma ack_last_add sc t signer loc b delay sig :
 Proof.
   unfold tr_add_appointment.
   destruct (authenticate t signer) as [u|]; [|exists []; split; [apply noack_nil|right; reflexivity]].
-  destruct (gk_get t u) as [ui|]; [|exists []; split; [apply noack_nil|left; reflexivity]].
+  destruct (gk_get t u) as [ui|]; [|exists []; split; [apply noack_nil|right; reflexivity]].
   destruct (N.leb (u_expiry ui) (gk_height t)); [exists []; split; [apply noack_nil|right; reflexivity]|].
   destruct (find_trk (db_trks t) (loc, u)); [exists []; split; [apply noack_nil|right; reflexivity]|].
   destruct (gk_add_update_appointment t u (loc, u) (b_len b)) as [[av|] t1|s t1].
@@ -801,7 +811,7 @@ Proof. induction 1; cbn [concat]; [apply noack_nil|apply noack_app; assumption].
 Lemma noack_breach_uuid_loop sc d : forall us t inv, noack (tr_breach_uuid_loop sc d us t inv).
 Proof.
   induction us as [|uuid us IH]; intros t inv; cbn [tr_breach_uuid_loop]; [apply noack_nil|].
-  destruct (find_app _ uuid) as [a|]; [|apply noack_nil]. destruct (decrypt _ d) as [p|]; [|apply IH].
+  destruct (find_app _ uuid) as [a|]; [|apply IH]. destruct (decrypt _ d) as [p|]; [|apply IH].
   apply noack_app; [apply noack_handle_breach|]. destruct (r_handle_breach sc t uuid d p); [apply IH|apply noack_nil].
 Qed.
 
@@ -965,7 +975,7 @@ Proof.
   destruct (gk_get t u) as [ui|] eqn:Eg; [|intros H; inversion H].
   destruct (N.leb (u_expiry ui) (gk_height t)); [intros H; inversion H|].
   destruct (find_trk (db_trks t) (loc, u)); [intros H; inversion H|].
-  set (a := mk_app loc u b delay sig (w_height t)).
+  set (a := mk_app loc u b delay sig (w_height t)). cbv zeta.
   destruct (gk_add_update_appointment t u (loc, u) (b_len b)) as [[av|] t1|s t1] eqn:Ec; cbn [bind]; try (intros H; inversion H; fail).
   assert (Ht1 : w_cache t1 = w_cache t /\ db_apps t1 = db_apps t).
   { unfold gk_add_update_appointment in Ec. rewrite Eg in Ec.
@@ -973,12 +983,14 @@ Proof.
   destruct Ht1 as [Hw1 Ha1]. rewrite Hw1.
   intros H. exists u. split; [exact Hs|].
   destruct (ti_get (w_cache t) loc) as [dispute|] eqn:Et.
-  - destruct (w_store_triggered sc t1 a dispute) as [[] t2|s t2] eqn:E2; cbn [bind] in H; inversion H; subst; clear H.
+  - destruct (w_store_triggered sc t1 a dispute) as [[] t2|s t2] eqn:E2; cbn [bind] in H; [|discriminate].
+    match type of H with context [if ?c then _ else _] => destruct c eqn:Est end; inversion H; subst; clear H.
     unfold w_store_triggered in E2. unfold tr_store_triggered.
     change (a_blob a) with b in *. change (app_uuid a) with (loc, u) in *.
     destruct (decrypt b dispute) as [p|] eqn:Ed.
-    + destruct (w_store_appointment t1 a) as [[] t1'|] eqn:E3; cbn [bind] in E2; [|discriminate].
-      apply store_spec in E3. destruct E3 as [Ha3 _].
+    + rewrite Est in E2. rewrite Est. cbn [negb].
+      destruct (w_store_appointment t1 a) as [[] t1'|] eqn:E3; cbn [bind] in E2; [|discriminate].
+      apply (store_spec _ _ _ Est) in E3. destruct E3 as [Ha3 _].
       destruct (r_handle_breach sc t1' (loc, u) dispute p) as [s t3|] eqn:E4; cbn [bind] in E2; [|discriminate].
       destruct (status_rejected s).
       * right. left. apply in_stmts_r. apply in_stmts_l. apply in_stmts_r. apply in_stmts_r. left. reflexivity.
@@ -987,8 +999,9 @@ Proof.
     + rewrite Ha1 in *. destruct (find_app (db_apps t) (loc, u)) eqn:Ef.
       * right. left. apply in_stmts_r. apply in_stmts_l. left. reflexivity.
       * right. right. exists dispute. repeat split; assumption.
-  - destruct (w_store_appointment t1 a) as [[] t2|s t2] eqn:E2; cbn [bind] in H; inversion H; subst; clear H.
-    apply store_spec in E2. destruct E2 as [Ha2 _]. left. rewrite Ha2. exact (in_stored (db_apps t1) a).
+  - destruct (w_store_appointment t1 a) as [[] t2|s t2] eqn:E2; cbn [bind] in H; [|discriminate].
+    match type of H with context [if ?c then _ else _] => destruct c eqn:Est end; inversion H; subst; clear H.
+    apply (store_spec _ _ _ Est) in E2. destruct E2 as [Ha2 _]. left. rewrite Ha2. exact (in_stored (db_apps t1) a).
 Qed.
 
 (* ACKNOWLEDGED WORK SURVIVES.  If the receipt of an add_appointment was returned before the kill
@@ -1166,7 +1179,7 @@ Proof. unfold tr_delete. destruct us as [|x [|y l]]; apply hl_stmt; reflexivity.
 Lemma hl_breach_uuid_loop sc d : forall us t inv, hl (tr_breach_uuid_loop sc d us t inv).
 Proof.
   induction us as [|uuid us IH]; intros t inv; cbn [tr_breach_uuid_loop]; [apply hl_nil|].
-  destruct (find_app _ uuid) as [a|]; [|apply hl_nil]. destruct (decrypt _ d) as [p|]; [|apply IH].
+  destruct (find_app _ uuid) as [a|]; [|apply IH]. destruct (decrypt _ d) as [p|]; [|apply IH].
   apply hl_app; [apply hl_handle_breach|]. destruct (r_handle_breach sc t uuid d p); [apply IH|apply hl_nil].
 Qed.
 Lemma hl_breach_loop sc : forall ds t inv, Forall hl (tr_breach_loop sc ds t inv).
@@ -1446,6 +1459,7 @@ Proof.
     + rewrite HS. apply ap_cons; [exact Q1|].
       set (d2 := exec (db_of t1) (match find_app (db_apps t) (app_uuid a) with Some _ => SUpdApp a | None => SInsApp a end)) in *.
       assert (Q2 : Q d2) by (right; split; [exact HP|]; split; [exact Hu2|destruct Ha2 as [H|H]; [left|right; left]; exact H]).
+      destruct (negb (w_store_ok t1 a)); [apply ap_nil; exact Q2|].
       destruct (w_store_appointment t1 a) as [[] t1'|]; [|apply ap_nil; exact Q2].
       rewrite stmts_of_app.
       destruct (ap_neutral Q _ (add_states_ua t u ui' a P) (nl_handle_breach sc t1' (app_uuid a) dispute p) d2 Q2) as [A [B C]].
@@ -1840,7 +1854,7 @@ Lemma breach_uuid_loop_tracked_noop sc d : forall us t inv inv' t',
   breach_uuid_loop sc d us t inv = Ok inv' t' -> db_of t' = db_of t.
 Proof.
   induction us as [|uuid us IH]; intros t inv inv' t' Hk; cbn [breach_uuid_loop]; [intros H; inversion H; reflexivity|].
-  destruct (find_app (db_apps t) uuid) as [a|]; [|discriminate].
+  destruct (find_app (db_apps t) uuid) as [a|]; [|apply IH; intros x Hx; apply Hk; right; exact Hx].
   destruct (decrypt (a_blob a) d) as [p|]; [|apply IH; intros x Hx; apply Hk; right; exact Hx].
   destruct (r_handle_breach sc t uuid d p) as [s t1|] eqn:E; cbn [bind]; [|discriminate].
   apply handle_breach_tracked_noop in E; [|apply Hk; left; reflexivity].
